@@ -444,7 +444,59 @@ def gen_susp(repo, info):
     return out + FOOTER
 
 
-GENERATORS = [('Names.lean', gen_names), ('Susp.lean', gen_susp), ('Checksum.lean', gen_checksum), ('Kernel.lean', gen_kernel)]
+def gen_pack(repo, info):
+    """dr.py `DirectoryRecord._recalculate_extents_and_offsets`: the loop over the children, as a fold over their lengths
+    that also returns what is stored in each child (`extents_to_here`, `offset_to_here`).  The shape of the method is
+    matched strictly; the condition and the updates are translated expression by expression."""
+    tree = ast.parse(_read(repo, 'pycdlib/dr.py'))
+    out = HEADER % 'pycdlib/dr.py'
+
+    def build():
+        fn = _find(tree, 'DirectoryRecord._recalculate_extents_and_offsets')
+        body = [s for s in fn.body if not (isinstance(s, ast.Expr) and isinstance(s.value, ast.Constant))]
+        if len(body) != 3 or not isinstance(body[0], ast.If) or not isinstance(body[1], ast.For) or not isinstance(body[2], ast.Return):
+            raise Unsupported('shape of _recalculate_extents_and_offsets')
+        init, loop, ret = body
+        if ast.unparse(init.test) != 'index == 0' or ast.unparse(loop.iter) != 'range(index, len(self.children))' or not isinstance(loop.target, ast.Name):
+            raise Unsupported('loop header of _recalculate_extents_and_offsets')
+        state = [e.id for e in ret.value.elts]                      # (num_extents, dirrecord_offset)
+        f = Fn(tree, 'DirectoryRecord._recalculate_extents_and_offsets', 'dr_recalc')
+        # initial state of a recalculation from scratch
+        ini = {t.targets[0].id: f.expr(t.value) for t in init.body if isinstance(t, ast.Assign)}
+        if sorted(ini) != sorted(state):
+            raise Unsupported('initial state')
+        # loop body: `c = self.children[i]`, then statements over c.dr_len, then the stores into c
+        lb = list(loop.body)
+        if ast.unparse(lb[0]) != 'c = self.children[%s]' % loop.target.id:
+            raise Unsupported('first statement of the loop')
+        stores = {}
+        while lb and isinstance(lb[-1], ast.Assign) and isinstance(lb[-1].targets[0], ast.Attribute) \
+                and isinstance(lb[-1].targets[0].value, ast.Name) and lb[-1].targets[0].value.id == 'c':
+            st = lb.pop()
+            stores[st.targets[0].attr] = st.value
+        if set(stores) != {'extents_to_here', 'offset_to_here', 'index_in_parent'}:
+            raise Unsupported('stores into the child: %s' % sorted(stores))
+
+        class ChildLen(ast.NodeTransformer):
+            def visit_Attribute(self_, node):     # noqa: N805
+                if isinstance(node.value, ast.Name) and node.value.id == 'c':
+                    if node.attr != 'dr_len':
+                        raise Unsupported('reads c.%s' % node.attr)
+                    return ast.copy_location(ast.Name(id='c_dr_len', ctx=ast.Load()), node)
+                return self_.generic_visit(node)
+        core = [ChildLen().visit(x) for x in lb[1:]]
+        tup = '(%s)' % ', '.join(state)
+        cont = '(%s, out__ ++ [(%s, %s)])' % (tup, f.expr(stores['extents_to_here']), f.expr(stores['offset_to_here']))
+        text = f.block(core, cont, 2)
+        return ('def dr_recalc_init : Int × Int := (%s)\n\n' % ', '.join(ini[v] for v in state) +
+                'def dr_recalc %s (lens : List Int) (logical_block_size : Int) : (Int × Int) × List (Int × Int) :=\n' % ' '.join('(%s : Int)' % v for v in state) +
+                '  lens.foldl (fun st__ c_dr_len =>\n    let (%s, out__) := st__\n%s) (%s, [])\n' % (tup, text, tup))
+    out += _try(info, 'dr_recalc', build)
+    return out + FOOTER
+
+
+GENERATORS = [('Names.lean', gen_names), ('Susp.lean', gen_susp), ('Checksum.lean', gen_checksum), ('Kernel.lean', gen_kernel),
+              ('Pack.lean', gen_pack)]
 
 
 def generate(repo, outdir):
